@@ -55,7 +55,7 @@ theorem lcsFunc_values_from {κ : Type} [DecidableEq κ] (key : α → κ) {eq :
     ∃ r, lcsFunc? eq as bs = some r ∧ r <+ lcsSource as bs ∧
       r.map key <+ as.map key ∧ r.map key <+ bs.map key ∧
       r.length = lcsLen (as.map key) (bs.map key) := by
-  unfold lcsFunc? lcsSource
+  rw [lcsFunc?_def]; unfold lcsSource
   by_cases h0 : as.length = 0 ∨ bs.length = 0
   · simp only [if_pos h0]
     refine ⟨[], rfl, nil_sublist _, by simp, by simp, ?_⟩
